@@ -93,6 +93,22 @@ func govcLookup(from *govcScope, pfx, name string) (*govcTD, bool) {
 				}
 			}
 		}
+		// from a submodule: then the top level of the module it belongs to, then that
+		// module's (other) submodules (RFC 7950 5.1)
+		if m.belongs != nil {
+			for _, td := range m.belongs.top.tds {
+				if td.name == name {
+					return td, true
+				}
+			}
+			for _, sub := range m.belongs.subs {
+				for _, td := range sub.top.tds {
+					if td.name == name {
+						return td, true
+					}
+				}
+			}
+		}
 		return nil, false
 	}
 	for i, im := range m.imports {
